@@ -198,13 +198,21 @@ func c20Exec(w *fw.Worker, c fw.Case) fw.Result {
 	if entry.Wrap != nil {
 		client = entry.Wrap(hostile)
 	}
-	env.rec.Take()
-	entry.Call(env, entry.Benign)
-	time.Sleep(time.Millisecond)
-	benign := env.rec.Take()
-	entry.Call(env, client)
-	time.Sleep(time.Millisecond)
-	got := env.rec.Take()
+	var benign, got []deco.RecStmt
+	// the channel entries send their ids through a batcher with a timeout: how many statements a
+	// call is split into depends on timing, so a differing statement count is re-measured
+	for attempt := 0; attempt < 4; attempt++ {
+		env.rec.Take()
+		entry.Call(env, entry.Benign)
+		time.Sleep(time.Millisecond)
+		benign = env.rec.Take()
+		entry.Call(env, client)
+		time.Sleep(time.Millisecond)
+		got = env.rec.Take()
+		if len(got) == len(benign) || len(got) == 0 {
+			break
+		}
+	}
 	res := fw.HeldR(len(benign) > 0, "")
 	res.Count("statements", int64(len(benign)+len(got)))
 	res.AddSet("entries", cc.Entry)
